@@ -1,7 +1,20 @@
-(* C08 - lexing and parsing terminate.  PARTIAL: the theorem covers the lexer (NextToken always
-   returns from every lexer state); termination of the parser model within its fuel bound and the
-   program-or-error contract are decided by the correspondence and oracle runs (see DESIGN.md). *)
-From TW Require Import Bytes GenToken Lexer LexTotal GenTie.
+(* C08 - lexing and parsing terminate on every input and end in a program or an error.
+   Proved for every byte string, on the lexer and parser models:
+   - NextToken always returns (the fuel of the model is sufficient);
+   - each NextToken call consumes input, or returns EOF, or returns an ILLEGAL token that the next
+     call returns again unchanged, so pulling tokens until the lexer repeats itself terminates;
+   - the parser returns on every token list that ends in EOF or ILLEGAL, within the fuel the model
+     gives it (6 per remaining token + 20), never through the branch in which the Go code would
+     panic, with a program and no recorded error, or with at least one error, every error
+     carrying a line >= 1.
+   What remains with the correspondence and oracle runs: that the models are the Go code (and
+   with it the absence of run-time panics outside the modelled branches), and the clause that a
+   template with an unterminated string, comment, block or argument list is *rejected* (decided
+   on generated instances; C08_illegal_character_is_rejected proves rejection for the
+   illegal-character case, in which the lexer stops advancing and the stream ends in ILLEGAL). *)
+From Coq Require Import String.
+From TW Require Import Bytes GenToken Lexer LexTotal GenTie Ast Parser ParseTotal LexAll.
+Local Open Scope string_scope.
 
 Theorem C08_next_token_always_returns l : nextTok l <> None.
 Proof. exact (nextTok_total l). Qed.
@@ -18,3 +31,51 @@ Theorem C08_block_loop_sees_eof_and_illegal :
   GenParser.block_break_tokens = [T_ELSE; T_ELSE_IF; T_END].
 Proof. exact block_tokens_tied. Qed.
 Print Assumptions C08_block_loop_sees_eof_and_illegal.
+
+(* one NextToken call: progress, EOF, or an ILLEGAL token that repeats *)
+Theorem C08_next_token_progress input fuel l t l' :
+  LexerPos.Inv input l -> nextToken fuel l = Some (t, l') ->
+  (lpos l < lpos l')%nat \/ ttype t = T_EOF \/
+  (ttype t = T_ILLEGAL /\ forall f, nextToken (S f) l' = Some (t, l')).
+Proof. exact (nextToken_prog input fuel l t l'). Qed.
+Print Assumptions C08_next_token_progress.
+
+(* the token stream of every input is finite and ends in EOF or ILLEGAL *)
+Theorem C08_lexing_terminates input : exists ts, lex_all input = Some ts /\ tinv ts = true.
+Proof. exact (lex_all_total input). Qed.
+Print Assumptions C08_lexing_terminates.
+
+(* the parser on every such token list *)
+Theorem C08_parser_terminates ts :
+  tinv ts = true ->
+  (exists p, parse_tokens ts = ParsedOk p) \/
+  (exists es, parse_tokens ts = ParseErrors es /\ es <> [] /\ errs_ok es).
+Proof. exact (parse_tokens_total ts). Qed.
+Print Assumptions C08_parser_terminates.
+
+(* the whole property, for every byte string *)
+Theorem C08_program_or_error_with_line src :
+  (exists p, parse_source src = ParsedOk p) \/
+  (exists es, parse_source src = ParseErrors es /\ es <> [] /\
+              List.Forall (fun e => 1 <= fst e)%nat es).
+Proof. exact (parse_source_total src). Qed.
+Print Assumptions C08_program_or_error_with_line.
+
+(* an input on which the lexer stops at a character it cannot read (its token stream ends in
+   ILLEGAL instead of EOF) is always rejected with at least one error *)
+Theorem C08_illegal_character_is_rejected src ts :
+  lex_all src = Some ts -> ttype (last ts eofTok) = T_ILLEGAL ->
+  exists es, parse_source src = ParseErrors es /\ es <> [].
+Proof. exact (stuck_lexer_is_rejected src ts). Qed.
+Print Assumptions C08_illegal_character_is_rejected.
+
+Example C08_illegal_character_example :
+  exists ts, lex_all (bs "{{ 1 # 2 }}") = Some ts /\ ttype (last ts eofTok) = T_ILLEGAL.
+Proof. vm_compute. eexists; split; reflexivity. Qed.
+
+(* non-vacuity: a valid template, an unterminated block and an illegal character *)
+Example C08_examples :
+  (exists p, parse_source (bs "<b>{{ 1 + 2 }}</b>") = ParsedOk p) /\
+  (exists es, parse_source (bs "@if(x)a") = ParseErrors es) /\
+  (exists es, parse_source (bs "{{ 1 # 2 }}") = ParseErrors es).
+Proof. repeat split; vm_compute; eexists; reflexivity. Qed.
